@@ -23,7 +23,9 @@ RULE = ('transform: every (n, block) in 2^0..2^14 x (2^1..2^8 explicit + default
 TRUSTED = ['XLA float32 arithmetic is exact on the small-integer test vectors (|partial sums| < 2^24); otherwise compared '
            'with tolerance inside Coq',
            'the sign vector of a rotation is recovered from the observation (reference FWHT of the rotated vector), not from the key',
-           'jax.random.rademacher / threefry: different keys give different sign vectors (checked on the sampled keys)',
+           '"different keys give different rotations" = theorem C18_rotation_injective_in_signs (different sign vectors give different '
+           'rotations) + the sampled fact that jax.random.rademacher / threefry give different keys different sign vectors '
+           '(1 + ceil(40/size) keys per case must not all agree)',
            'tools/anchors/walsh_hadamard.py list-loop emitter (append/reverse/len -> ++ [..]/rev/length) and its reading of '
            'math.ceil(math.log2(n)) as Z.log2_up n']
 ASSUMPTIONS = ['theorems are stated for every commutative ring (ring_theory with Leibniz equality): real / rational / float-exact '
